@@ -25,6 +25,8 @@ type Msg struct {
 	ExpAt   int64    `json:"exp_at,omitempty"` // virtual time after which it must not be first-delivered (0 = never)
 	ExpIvl  uint32   `json:"exp_ivl,omitempty"`
 	PubAt   int64    `json:"pub_at,omitempty"`
+	WillWhy string   `json:"will_why,omitempty"`        // why the model published this will
+	WillErasedRisk bool `json:"will_erased_risk,omitempty"` // a delayed will of an earlier connection with this id fired while this will's connection was live
 	Payload []byte   `json:"-"`
 }
 
@@ -148,6 +150,7 @@ type Model struct {
 	groups   []*groupExp
 	dropsAllowed int
 	x        *modelExt
+	WillDisp map[string]string // will payload -> what the model decided (published, refused, cancelled_by_resume, ...)
 }
 
 func NewModel(cfg *Config) *Model {
